@@ -60,6 +60,9 @@ ASSUMPTIONS = [
     "sync.Once is seen as a lock: the function passed to X.once.Do runs holding it in write mode, everything after a Do call on "
     "the path holds it in read mode (Do returns only after the single execution of the function has completed); a location "
     "guarded by a Once (grpcCloudProvider.client) is therefore written only inside Do and read only after Do",
+    "goroutine bodies: a function literal started by a go statement inside a loop must not store, without a lock, into a variable "
+    "of the enclosing function (syntactic rule on the literal's free variables); variables written by a single goroutine and "
+    "read after a WaitGroup.Wait are not covered",
     "informer caches: what a Lister/Indexer/Store method returns is the cache's own object (client-go contract); the results of "
     "DeepCopy and of clientset calls are private copies",
     "abstraction: each recorded access becomes the mini-program `acquire held locks; access; release` of the Coq model; "
@@ -181,6 +184,36 @@ def run(ctx):
             else:
                 replay["race_detector"] = "silent (%s)" % res
         ctx.violation("monitor", what, replay, found=found, theorem="disciplined generated = true (informer-cache objects are read-only)")
+    # a variable of the enclosing function written, without a lock, by goroutines that a loop starts: every instance writes
+    # the same variable (no struct field is involved, so no tracked location sees it)
+    go_writes = data.get("go_writes") or []
+    ctx.cov["goroutine_captured_writes"] = len(go_writes)
+    ctx.cov["obligations"] += 1
+    if not go_writes:
+        ctx.cov["discharged"] += 1
+    seen_pos = set()
+    for gw in go_writes:
+        if gw["pos"] in seen_pos or len(seen_pos) >= 3:
+            continue
+        seen_pos.add(gw["pos"])
+        entry = gw["via"].split(":")[0]
+        what = ("%s: goroutines started in a loop store into %s at %s without holding a lock (reached via %s)" % (
+            entry, gw["what"], gw["pos"], gw["via"]))
+        replay = {"goroutine_captured_write": gw, "how": "bin/check C19 --replay <this file>"}
+        found = False
+        if cw_binary is None:
+            cw_binary = race_build(ctx) or ""
+        if cw_binary:
+            case, reports, res = run_detector(cw_binary, entry, [entry], 20 if ctx.quick else 100)
+            replay["ghrace_case"] = case
+            if reports:
+                hits = [r for r in reports if report_matches(r, gw)]
+                replay["race_detector_reports"] = (hits or reports)[:3]
+                replay["race_detector_report_count"] = len(reports)
+                found = bool(hits)
+            else:
+                replay["race_detector"] = "silent (%s)" % res
+        ctx.violation("monitor", what, replay, found=found, theorem="disciplined generated = true (variables captured by goroutines)")
     bad, out = locksgen.bad_accesses(data)
     if bad is None:
         ctx.violation("proof", "Coq could not evaluate the discipline on the generated program", {"output": out[-3000:]},
